@@ -232,6 +232,18 @@ impl<VM: VMBinding> CommonGenPlan<VM> {
         if self.common.get_los().in_space(object) {
             return self.common.get_los().trace_object::<Q>(queue, object);
         }
+        // Objects allocated into the non-moving space since the last full-heap GC are unmarked,
+        // and the non-moving space is swept at the end of every GC.  Trace them here so that
+        // reachable ones are marked (and scanned), and not reclaimed by the sweep.
+        if self.common.get_nonmoving().in_space(object) {
+            return crate::policy::gc_work::PolicyTraceObject::trace_object::<Q, KIND>(
+                self.common.get_nonmoving(),
+                queue,
+                object,
+                None,
+                worker,
+            );
+        }
 
         object
     }
